@@ -192,12 +192,14 @@ FD(c) ==
      ELSE IF r4 = -1 THEN Res("needmore", r3, 0)
      ELSE Res("frame", r4, n)
 
-Next ==
-  /\ bad = ""
-  /\ lastk # "panic"
-  /\ \/ AddRaw
-     \/ AddEnc
-     \/ \E c \in Cuts \cup {pos} : FD(c)
+\* A state in which the monitor has rejected (or the decoder has panicked) is terminal.
+Live == bad = "" /\ lastk # "panic"
+
+DoAddRaw == Live /\ AddRaw
+DoAddEnc == Live /\ AddEnc
+DoDecode == Live /\ \E c \in Cuts \cup {pos} : FD(c)
+
+Next == DoAddRaw \/ DoAddEnc \/ DoDecode
 
 Spec == Init /\ [][Next]_vars
 
